@@ -169,6 +169,89 @@ Theorem C02_nontext_name_violation : forall ms na args kws c vb sz bs rest, na <
 Proof. exact nontext_name_violation. Qed.
 Print Assumptions C02_nontext_name_violation.
 
+(* ... the BODY of a unicode sequence is any byte string the peer chooses (the wire tree carries the bytes).  What
+   UnicodeUnslicer hands on is the text the strict decoder (Schema.utf8_valid / utf8_decode, both compared with Python's
+   decoder on every run) makes of a body it accepts: the delivered text is encodable and the body was its UTF-8 form --
+   user code never sees text that no honest UnicodeSlicer could have sent *)
+Theorem C02_text_body_decoded : forall mx kids v, recv_text mx kids = RDeliver v ->
+  (kids = [] /\ v = ONone) \/
+  exists vocab size bs, kids = [WStr vocab size bs] /\ utf8_valid bs = true /\ v = OText (utf8_decode bs).
+Proof. exact recv_text_delivers_decoded. Qed.
+Print Assumptions C02_text_body_decoded.
+
+Theorem C02_text_delivered_is_sent_form : forall mx kids t, recv_text mx kids = RDeliver (OText t) ->
+  text_encodable t = true /\ exists vocab size, kids = [WStr vocab size (utf8_encode t)].
+Proof. exact recv_text_delivers_sent_form. Qed.
+Print Assumptions C02_text_delivered_is_sent_form.
+
+(* ... and a body that is NOT UTF-8 (stray continuation byte, overlong form, surrogate, 0xFF, truncated sequence ...) fails
+   that one object with a Violation, in every slot that admits a unicode sequence (no constraint, Any, any
+   UnicodeConstraint), whatever follows it: the repaired defect oracle/non-utf8-text-body-drops-connection (commit 66cc69a;
+   unicode_unslicer_undecodable_violation is read from slicers/unicode.py: without the handler this proof breaks and the
+   model says "connection lost").  As an argument, nested in a list, and as an answer: *)
+Theorem C02_nontext_body_violation : forall oc vocab size bs rest, utf8_valid bs = false ->
+  (oc = None \/ oc = Some CAny \/ exists mx mn, oc = Some (CText mx mn)) ->
+  recvw oc (WOpen OtUnicode (WStr vocab size bs :: rest)) = RViol.
+Proof. exact nontext_body_violation_slot. Qed.
+Print Assumptions C02_nontext_body_violation.
+
+Theorem C02_nontext_body_call_violation : forall mx mn vocab size bs rest, utf8_valid bs = false ->
+  recv_call (ms1 (CText mx mn)) [WOpen OtUnicode (WStr vocab size bs :: rest)] [] = CViol /\
+  recv_call (ms1 (CList (CText mx mn) None 0)) [WOpen OtList [WOpen OtUnicode (WStr vocab size bs :: rest)]] [] = CViol /\
+  recv_answer (Some (CText mx mn)) (WOpen OtUnicode (WStr vocab size bs :: rest)) = Errback.
+Proof. exact nontext_body_call_violation. Qed.
+Print Assumptions C02_nontext_body_call_violation.
+
+Theorem C02_nontext_body_examples :
+  utf8_valid [255] = false /\ utf8_valid [192; 128] = false /\ utf8_valid [237; 160; 128] = false /\ utf8_valid [195; 169] = true /\
+  recv_call (ms1 (CText None 0)) [WOpen OtUnicode [WStr false 1 [255]]] [] = CViol /\
+  recv_call (ms1 CAny) [WOpen OtList [WOpen OtUnicode [WStr false 2 [192; 128]]]] [] = CViol /\
+  recv_answer (Some (CText (Some 3) 0)) (WOpen OtUnicode [WStr false 3 [237; 160; 128]]) = Errback /\
+  recv_call (ms1 (CText None 0)) [WOpen OtUnicode [WStr false 2 [195; 169]]] [] = CInvoke [OText [233]] [] /\
+  recv_answer (Some (CText (Some 1) 0)) (WOpen OtUnicode [WStr false 4 [240; 159; 152; 128]]) = Callback (OText [128512]).
+Proof. exact nontext_body_examples. Qed.
+Print Assumptions C02_nontext_body_examples.
+
+(* ---- my-reference sequences (RemoteInterface arguments, and any slot without constraint / under Any): the interface NAME
+   and the URL are byte strings that ReferenceUnslicer.receiveChild passes to six.ensure_str.  GUARD: the name is text.
+   Inside it a reference without URL is delivered (and the claimed name is then judged by checkAllArgs like every other
+   value); a name / URL that is not UTF-8 gets the outcome the translated flags myref_nontext_{name,url}_violation say.
+   (A URL that is text is checked against the peer's Tub identity -- C05; not modelled here: Schema.recv_myref answers
+   "connection lost" for every text URL and no theorem claims anything about them.) *)
+Theorem C02_reference_text_delivered : forall tb s v vb sz name,
+  (tb =? tok_INT) || (tb =? tok_NEG) = true -> utf8_valid name = true ->
+  recv_myref [WInt tb s v; WStr vb sz name] = RDeliver (ORemote name).
+Proof. exact myref_text_delivered. Qed.
+Print Assumptions C02_reference_text_delivered.
+
+Theorem C02_reference_nontext_name_outcome : forall tb s v vb sz name rest,
+  (tb =? tok_INT) || (tb =? tok_NEG) = true -> utf8_valid name = false ->
+  recv_myref (WInt tb s v :: WStr vb sz name :: rest) = (if myref_nontext_name_violation then RViol else RAbort).
+Proof. exact myref_nontext_name_outcome. Qed.
+Print Assumptions C02_reference_nontext_name_outcome.
+
+Theorem C02_reference_nontext_url_outcome : forall tb s v vb sz name vb2 sz2 url,
+  (tb =? tok_INT) || (tb =? tok_NEG) = true -> utf8_valid name = true -> utf8_valid url = false ->
+  recv_myref [WInt tb s v; WStr vb sz name; WStr vb2 sz2 url] = (if myref_nontext_url_violation then RViol else RAbort).
+Proof. exact myref_nontext_url_outcome. Qed.
+Print Assumptions C02_reference_nontext_url_outcome.
+
+(* ... outside the guard "a non-conforming message makes that one call fail with a Violation" is FALSE on the current tree
+   (known finding oracle/non-utf8-reference-name-drops-connection): a my-reference whose interface name is b"\xa8a", or
+   whose URL is b"\xff", loses the whole connection -- as an argument under Any / RemoteInterfaceConstraint, nested in a
+   list, and in an answer.  Lines 5-6: inside the guard (a negative clid, a non-ASCII text name) the reference is delivered.
+   (The their-reference URL, referenceable.py TheirReferenceUnslicer, is the same statement; gifts are outside the model,
+   its flag theirref_nontext_url_violation is translated and the oracle drives the site.) *)
+Theorem C02_reference_name_refuted :
+  recv_call (ms1 CAny) [WOpen OtMyRef [WInt 129 5 5; WStr false 2 [168; 97]]] [] = CAbort /\
+  recv_call (ms1 (CRemote None)) [WOpen OtMyRef [WInt 129 5 5; WStr false 2 [82; 73]; WStr false 1 [255]]] [] = CAbort /\
+  recv_call (ms1 (CList CAny None 0)) [WOpen OtList [WOpen OtMyRef [WInt 129 5 5; WStr false 2 [168; 97]]]] [] = CAbort /\
+  recv_answer (Some CAny) (WOpen OtMyRef [WInt 129 5 5; WStr false 2 [168; 97]]) = ConnLost /\
+  recv_call (ms1 CAny) [WOpen OtMyRef [WInt 131 5 (-5); WStr false 2 [82; 73]]] [] = CInvoke [ORemote [82; 73]] [] /\
+  recv_call (ms1 CAny) [WOpen OtMyRef [WInt 129 5 5; WStr false 2 [195; 169]]] [] = CInvoke [ORemote [195; 169]] [].
+Proof. exact reference_name_refuted. Qed.
+Print Assumptions C02_reference_name_refuted.
+
 (* "a non-conforming message makes that one call fail with a Violation": FALSE for strictTaster constraints
    (known finding oracle/strict-taster-drops-connection): a wrong token type under str/bool/None is a BananaError *)
 Theorem C02_one_call_refuted :
